@@ -27,3 +27,27 @@ Theorem C12_returns_the_keys_it_was_given : forall (value : Type) targets additi
   map fst (apply_with_params value targets additional kwargs) = map fst kwargs.
 Proof. exact same_keys. Qed.
 Print Assumptions C12_returns_the_keys_it_was_given.
+
+(* Dropout transforms (generated code): the image keeps its shape, keypoints are removed only inside holes
+   (half-open), and every surviving keypoint comes back unchanged and in its input order *)
+From Coq Require Import ZArith QArith.
+From DV.lib Require Import PyNum PyRt.
+From DV.model Require Import Arrays NpRt.
+From DV.gen Require Import Gen_dropout_functional Gen_cls_coarse Gen_cls_grid.
+From DV.proofs Require Import Dropout.
+Theorem C12_dropout_preserves_shape_and_annotation_geometry :
+  (forall v holes fv mfv c r s, Forall (hole_in (vshape v)) holes ->
+     vshape (CoarseDropout_apply v holes fv mfv c r s) = vshape v) /\
+  (forall sfv smf v holes fv mfv c r s, Forall (hole_in (vshape v)) holes ->
+     vshape (GridDropout_apply sfv smf v holes fv mfv c r s) = vshape v) /\
+  (forall kps holes, exists f, CoarseDropoutK_apply_to_keypoints kps holes = filter f kps) /\
+  (forall kps holes kp, In kp (CoarseDropoutK_apply_to_keypoints kps holes) <->
+     In kp kps /\ forall h, In h holes -> ~ kp_inside kp h).
+Proof.
+  split; [|split; [|split]].
+  - intros. unfold CoarseDropout_apply. apply cutout_exact. assumption.
+  - intros. unfold GridDropout_apply. apply cutout_exact. assumption.
+  - intros. apply keypoints_order.
+  - intros. apply keypoints_removed_iff.
+Qed.
+Print Assumptions C12_dropout_preserves_shape_and_annotation_geometry.
